@@ -16,6 +16,8 @@ const (
 	sigError     = 3
 	sigLookahead = 4
 	sigPartition = 5
+	sigEntry     = 6
+	sigFinal     = 7
 )
 
 func computeRuleClasses(t *Tables, g *Grammar) []int {
@@ -56,7 +58,7 @@ func computeRuleClasses(t *Tables, g *Grammar) []int {
 	return ruleClass
 }
 
-func partitionStatesByAction(t *Tables, ruleClass []int, numStates int) ([]int, *container.IntSliceSet) {
+func partitionStatesByAction(t *Tables, ruleClass []int, numStates, numInputs int) ([]int, *container.IntSliceSet) {
 	// Initial partitions based on reductions and actions
 	// Signature of a state:
 	//    Action[s], plus LALR entries substituting rule -> ruleClass
@@ -97,9 +99,22 @@ func partitionStatesByAction(t *Tables, ruleClass []int, numStates int) ([]int, 
 	partition := make([]int, numStates)
 	partitions := container.NewIntSliceSet()
 
+	final := make(map[int]bool)
+	for _, s := range t.FinalStates {
+		final[s] = true
+	}
+
 	// Create the initial partitions
 	for i := 0; i < numStates; i++ {
 		sig := stateSignature(i)
+		if i < numInputs {
+			// Parsing of input #i starts in state #i, so entry states must keep their indices.
+			sig = append(sig, sigEntry, i)
+		}
+		if final[i] {
+			// The parser stops as soon as it reaches a final state: never merge one with an ordinary state.
+			sig = append(sig, sigFinal)
+		}
 		partition[i] = partitions.Insert(sig)
 	}
 	return partition, partitions
@@ -159,7 +174,7 @@ func refinePartitions(partition []int, partitions *container.IntSliceSet, t *Tab
 func minimize(t *Tables, g *Grammar) {
 	numStates := t.NumStates
 	ruleClass := computeRuleClasses(t, g)
-	partition, partitions := partitionStatesByAction(t, ruleClass, numStates)
+	partition, partitions := partitionStatesByAction(t, ruleClass, numStates, len(g.Inputs))
 	partition, partitions = refinePartitions(partition, partitions, t)
 
 	if partitions.Len() == numStates {
